@@ -11,11 +11,13 @@
    sub-directives, apply tag, end apply tag, include, and the entry iterator with the blank
    line that `format` puts after every entry.
    The trees on which the round trip holds are the ones satisfying `wf_entry`
-   (Model/RoundTripSpec.v, one executable boolean per construct); `same_meaning` is equality up
-   to the number-format flag of numbers whose integer part has fewer than four digits.
-   C05_parser_image_wf_partial discharges `wf_entry` for what the parser returns, EXCEPT for
-   one non-local corner, an explicit hypothesis: a transaction without code whose payee starts
-   with `(` (read when no `)` follows anywhere in the rest of the text; `entry_open_paren`).
+   (Model/RoundTripSpec.v, one executable boolean per construct), in a list satisfying
+   `wf_ledger` (every entry wf_entry, and - the one condition that is not local to an entry -
+   after a transaction without code whose payee starts with `(`, nothing that is printed with a
+   `)`); `same_meaning` is equality up to the number-format flag of numbers whose integer part
+   has fewer than four digits.  C05_parser_image_wf shows that parse_ledger only returns such
+   lists, so C05_format_preserves and C05_format_idempotent hold for EVERY text that parses,
+   with no side condition.
 
    DOCUMENTED GRAMMAR ACCEPTED: C05_grammar_accepted_partial covers these constructs of
    doc/syntax.md (Model/DocGrammar.v, where every transcription choice is listed):
@@ -103,6 +105,7 @@ Proof. exact posting_item_fmt. Qed.
 Print Assumptions C05_rt_posting.
 
 Theorem C05_rt_transaction : forall width fuel t k, wf_txn t = true -> follow_txn k ->
+  (open_paren_payee t = true -> no41 (print_txn width t ++ k) = true) ->
   (length (print_txn width t ++ k) <= fuel)%nat ->
   exists t' sps, transaction fuel (print_txn width t ++ k) = POk (t', sps) k /\ same_txn t t'.
 Proof. exact transaction_fmt. Qed.
@@ -111,6 +114,7 @@ Print Assumptions C05_rt_transaction.
 (* every entry (transaction, comment, apply tag, end apply tag, include, account and commodity
    declarations), followed by the blank line `format` writes after it *)
 Theorem C05_rt_entry : forall width fuel e k, wf_entry e = true ->
+  (entry_open_paren e = true -> no41 (print_entry width e ++ 10 :: k) = true) ->
   (length (print_entry width e ++ 10%N :: k) <= fuel)%nat ->
   exists e' sps, parse_ledger_entry fuel (print_entry width e ++ 10 :: k) = POk (e', sps) (10 :: k) /\
                  same_entry e e'.
@@ -118,7 +122,7 @@ Proof. exact entry_fmt. Qed.
 Print Assumptions C05_rt_entry.
 
 (* ---- the whole text ---- *)
-Theorem C05_roundtrip : forall width es, forallb wf_entry es = true ->
+Theorem C05_roundtrip : forall width es, wf_ledger es = true ->
   exists es', parse_ledger (format_entries width es) = LOk es' /\ same_meaning es (map e_entry es').
 Proof. exact format_roundtrip. Qed.
 Print Assumptions C05_roundtrip.
@@ -129,9 +133,9 @@ Theorem C05_same_meaning_same_text : forall width es es',
 Proof. exact same_meaning_format. Qed.
 Print Assumptions C05_same_meaning_same_text.
 
-(* the same two laws with the well-formedness of the entries as the hypothesis *)
+(* the two laws with the well-formedness of the entries as the hypothesis *)
 Theorem C05_format_preserves_wf : forall width s es,
-  parse_ledger s = LOk es -> forallb wf_entry (map e_entry es) = true ->
+  parse_ledger s = LOk es -> wf_ledger (map e_entry es) = true ->
   exists es', parse_ledger (format_entries width (map e_entry es)) = LOk es' /\
               same_meaning (map e_entry es) (map e_entry es').
 Proof. exact format_preserves. Qed.
@@ -139,7 +143,7 @@ Print Assumptions C05_format_preserves_wf.
 
 Theorem C05_format_idempotent_wf : forall width s t,
   format_text width s = Some t ->
-  (forall es, parse_ledger s = LOk es -> forallb wf_entry (map e_entry es) = true) ->
+  (forall es, parse_ledger s = LOk es -> wf_ledger (map e_entry es) = true) ->
   format_text width t = Some t.
 Proof. exact format_idempotent. Qed.
 Print Assumptions C05_format_idempotent_wf.
@@ -171,35 +175,44 @@ Proof.
 Qed.
 Print Assumptions C05_parser_image_posting.
 
-Theorem C05_parser_image_transaction_partial : forall fuel i t sps r,
-  transaction fuel i = POk (t, sps) r -> open_paren_payee t = false -> wf_txn t = true.
+Theorem C05_parser_image_transaction : forall fuel i t sps r,
+  transaction fuel i = POk (t, sps) r -> wf_txn t = true.
 Proof.
   exact (RoundTripImageTxn.transaction_wf RoundTripImageExpr.value_expr_wf RoundTripImageExpr.posting_amount_wf
            RoundTripImageExpr.date_wf).
 Qed.
-Print Assumptions C05_parser_image_transaction_partial.
+Print Assumptions C05_parser_image_transaction.
 
-(* every entry parse_ledger returns is well formed, outside the open-parenthesis payee corner *)
-Theorem C05_parser_image_wf_partial : forall s es,
-  parse_ledger s = LOk es ->
-  Forall (fun e => entry_open_paren e = false -> wf_entry e = true) (map e_entry es).
+Theorem C05_parser_image_entry : forall fuel i e sps r,
+  parse_ledger_entry fuel i = POk (e, sps) r -> wf_entry e = true.
+Proof. exact parse_ledger_entry_wf. Qed.
+Print Assumptions C05_parser_image_entry.
+
+(* a transaction whose payee starts with `(` without a code was read from a text without `)`
+   from there on: the transaction and the rest of the text have none *)
+Theorem C05_parser_image_open_paren : forall fuel i t sps r,
+  transaction fuel i = POk (t, sps) r -> open_paren_payee t = true -> np_txn t = true /\ no41 r = true.
+Proof. exact RoundTripImageNo41.transaction_open_paren_np. Qed.
+Print Assumptions C05_parser_image_open_paren.
+
+(* everything parse_ledger returns is a well-formed ledger *)
+Theorem C05_parser_image_wf : forall s es,
+  parse_ledger s = LOk es -> wf_ledger (map e_entry es) = true.
 Proof. exact parser_image_wf. Qed.
-Print Assumptions C05_parser_image_wf_partial.
+Print Assumptions C05_parser_image_wf.
 
-(* ---- the two laws for parsed texts ----
-   formatting preserves meaning: for every text that parses (no payee of the open-parenthesis
-   corner), the formatted text parses to entries with the same meaning *)
-Theorem C05_format_preserves_partial : forall width s es,
-  parse_ledger s = LOk es -> no_open_paren es = true ->
+(* ---- the two laws, for every text ----
+   formatting preserves meaning: for every text that parses, the formatted text parses to
+   entries with the same meaning *)
+Theorem C05_format_preserves : forall width s es,
+  parse_ledger s = LOk es ->
   exists es', parse_ledger (format_entries width (map e_entry es)) = LOk es' /\
               same_meaning (map e_entry es) (map e_entry es').
 Proof. exact format_preserves_parsed. Qed.
-Print Assumptions C05_format_preserves_partial.
+Print Assumptions C05_format_preserves.
 
 (* formatting formatted text returns it unchanged *)
-Theorem C05_format_idempotent_partial : forall width s t,
-  format_text width s = Some t ->
-  (forall es, parse_ledger s = LOk es -> no_open_paren es = true) ->
-  format_text width t = Some t.
+Theorem C05_format_idempotent : forall width s t,
+  format_text width s = Some t -> format_text width t = Some t.
 Proof. exact format_idempotent_parsed. Qed.
-Print Assumptions C05_format_idempotent_partial.
+Print Assumptions C05_format_idempotent.
